@@ -13,7 +13,9 @@ TRUSTED = [
 ]
 ASSUMPTIONS = [
     "members are finite rules / dates; every member stream is sorted (C01 for rrules)",
-    "an iterator created before a mutator and advanced after it is outside the proved history theorem (known finding D-C10-stale, oracle-only)",
+    "what an iterator created before a mutator ITSELF yields when advanced after it is not specified by the property (history_inv_any leaves exactly "
+    "these observations open); it is compared with the model (its own generation's machine) when the later mutators are rrule/exrule (the old "
+    "generator holds a live iterator over the set's date lists); every OTHER observation after such a resume is judged like any other",
 ]
 RULE = ("sets of 0..4 finite rrules and 0..6 dates per role, deliberately coinciding occurrences, exclusions that exhaust first, empty roles, the same "
         "(cached) rrule object in two roles; histories of 1..12 ops interleaving rrule/rdate/exrule/exdate with iterPartial k, iterFull, count, "
@@ -27,7 +29,16 @@ def rand_member(rng):
     """a finite real rrule and the int stream it yields; small grid so that members coincide"""
     from dateutil import rrule as R
     kind = rng.random()
-    if kind < 0.3:
+    if kind < 0.16:
+        # calendar members: several occurrences per period, crossing a year boundary after a few occurrences, mostly UNCACHED —
+        # live iterations over one such object only agree if every iteration has its own year/month masks
+        p = rrlib.calendar_rule_params(rng)
+        return tagged(R.rrule(cache=rng.random() < 0.15, **p), p), ints(list(R.rrule(**p)))
+    if kind < 0.19:
+        # COUNT cut short by datetime.MAXYEAR (the member is shorter than its COUNT)
+        p = rrlib.maxyear_rule_params(rng)
+        return tagged(R.rrule(cache=rng.random() < 0.3, **p), p), ints(list(R.rrule(**p)))
+    if kind < 0.4:
         # long members: a partial iteration leaves the cache PARTIALLY filled (the fill batch is 10)
         p = dict(freq=rng.choice([R.HOURLY, R.DAILY, R.MINUTELY]), dtstart=rrlib.to_dt(rng.choice([0, 3600, 86400])),
                  interval=rng.choice([1, 1, 2, 3]), count=rng.randint(15, 40))
@@ -36,8 +47,30 @@ def rand_member(rng):
                  interval=rng.choice([1, 1, 2, 3, 12, 24]), count=rng.choice([0, 1, 2, 3, 5, 8, 11, 13]))
     else:
         p = rrlib.random_rule_params(rng, 12)
-    r = R.rrule(cache=rng.random() < 0.3, **p)
+    r = tagged(R.rrule(cache=rng.random() < 0.3, **p), p)
     return r, ints(list(R.rrule(**p)))
+
+
+def tagged(rule, p):
+    """remember how the member was built, so that a failing history can be replayed on the SAME kind of objects"""
+    q = {}
+    for k, v in p.items():
+        q[k] = v.isoformat() if hasattr(v, "isoformat") else (list(v) if isinstance(v, tuple) else v)
+    rule._verif_params = {"cache": rule._cache is not None, "params": q}
+    return rule
+
+
+def member_table(ops):
+    """[(object id in order of first use, construction record)] and, per rr/xr op in order, the index into it"""
+    seen, table, uses = {}, [], []
+    for k, p in ops:
+        if k in ("rr", "xr"):
+            key = id(p[0])
+            if key not in seen:
+                seen[key] = len(table)
+                table.append(getattr(p[0], "_verif_params", None))
+            uses.append(seen[key])
+    return table, uses
 
 
 def rand_date(rng, pool):
@@ -57,9 +90,10 @@ def gen_history(rng, mode="plain"):
     n = rng.randint(1, 12)
     opened = []        # mutator count at open time
     muts = 0
+    start_empty = rng.random() < 0.25       # the set is observed while it still has NO member (empty-then-populated)
     for _ in range(n):
         r = rng.random()
-        if r < 0.45 or not ops:
+        if r < 0.45 or (not ops and not start_empty):
             kinds = ["rr", "rr", "rd", "rd", "xr", "xd", "xd"]
             if mode == "stale-rr" and opened:
                 kinds = ["rr", "xr"]
@@ -73,8 +107,17 @@ def gen_history(rng, mode="plain"):
                     members.append((rule, stream))
                 pool += stream[:6] + rng.sample(stream, min(len(stream), 6)) + [x + 1 for x in stream[10:14]]   # also far beyond any cached prefix
                 ops.append((k, (rule, stream)))
+                if k == "rr" and rng.random() < 0.08:
+                    # the same object again as an exclusion: everything it yields is cancelled (a set that is observed EMPTY
+                    # although it has members), usually followed by an observation and a further member
+                    ops.append(("xr", (rule, stream))); muts += 1
+                    ops.append(("q", rng.choice([("all",), ("cnt",), ("all",)])))
             else:
-                ops.append((k, rand_date(rng, pool)))
+                d = rand_date(rng, pool)
+                ops.append((k, d))
+                if rng.random() < 0.12:
+                    # the same instant again (repeated rdate / exdate), or cancelled at once by the opposite date
+                    ops.append((rng.choice([k, k, "xd" if k == "rd" else "rd"]), d)); muts += 1
         elif mode != "plain" and r < 0.65:
             cands = [j for j, m0 in enumerate(opened) if mode != "live" or m0 == muts]
             if cands and rng.random() < 0.55:
@@ -88,6 +131,88 @@ def gen_history(rng, mode="plain"):
             ops.append(("q", q))
             if q[0] not in ("cnt", "all") and rng.random() < 0.35:
                 ops.append(("q", ("cnt",)))            # a partial query, THEN count(): `_len` must not be a partial total
+    return ops
+
+
+def shaped_history(rng, mode="live"):
+    """histories of the shapes that random draws reach too rarely:
+      empty      — the set is fully observed while EMPTY (no member yet / every instant excluded), then given members;
+      dates      — dates only, with repeated rdates / exdates (no rrule: a single inclusion source);
+      shared     — ONE uncached calendar rule object used twice (two inclusion roles, or inclusion + exclusion of a second set member),
+                   a live iterator suspended mid-period while queries walk the same object into another year;
+      partial    — a long member, a partial fill, then every query kind including negative indices and slices;
+      maxyear    — a member cut short by year 9999, count() first."""
+    from dateutil import rrule as R
+    shape = rng.choice(["empty", "empty", "dates", "shared", "shared", "partial", "maxyear"])
+    full = lambda: rng.choice([("all",), ("cnt",), ("all",), ("idx", -1), ("aft", -10 ** 9, True)])
+    ops = []
+    if shape == "empty":
+        pre = rng.choice(["nothing", "cancelled-date", "cancelled-rule", "exdate-only"])
+        if pre == "cancelled-date":
+            d = rng.choice(GRID)
+            ops += [("rd", d), ("xd", d)]
+        elif pre == "cancelled-rule":
+            m = rand_member(rng)
+            ops += [("rr", m), ("xr", m)]
+        elif pre == "exdate-only":
+            ops += [("xd", rng.choice(GRID))]
+        ops += [("q", full()) for _ in range(rng.randint(1, 3))]
+        if mode != "plain" and rng.random() < 0.4:
+            ops.append(("open", rng.choice([0, 1, 100])))
+        for _ in range(rng.randint(1, 3)):
+            ops.append(rng.choice([("rr", rand_member(rng)), ("rd", rng.choice(GRID)), ("rd", rng.choice(GRID))]))
+            ops += [("q", full()), ("q", ("cnt",)), ("q", rrlib.random_query(rng, GRID))][:rng.randint(1, 3)]
+    elif shape == "dates":
+        ds = [rng.choice(GRID[:5]) for _ in range(rng.randint(2, 6))]
+        ds.append(ds[0])
+        rng.shuffle(ds)
+        for d in ds:
+            ops.append(("rd", d))
+            if rng.random() < 0.3:
+                ops.append(("q", rng.choice([("all",), ("cnt",), ("take", 3), ("idx", 1)])))
+        for _ in range(rng.randint(0, 2)):
+            x = rng.choice(GRID[:6])
+            ops += [("xd", x), ("xd", x)][:rng.randint(1, 2)]
+        ops += [("q", ("all",)), ("q", ("cnt",)), ("q", rrlib.random_query(rng, sorted(set(ds))))]
+    elif shape == "shared":
+        p = rrlib.calendar_rule_params(rng)
+        rule = tagged(R.rrule(cache=False, **p), p)
+        stream = ints(list(R.rrule(**p)))
+        m = (rule, stream)
+        ops.append(("rr", m))
+        if rng.random() < 0.5:
+            ops.append(("rr", m))                      # the same object twice in one set
+        if rng.random() < 0.5:
+            ops.append(("rd", stream[0] - 86400 * 400))
+        if rng.random() < 0.4 and len(stream) > 3:
+            ops.append(("xd", stream[rng.randrange(len(stream))]))
+        if mode == "plain":
+            ops += [("q", ("take", rng.randint(1, 4))), ("q", full()), ("q", rrlib.random_query(rng, stream))]
+        else:
+            ops.append(("open", rng.randint(1, 4)))
+            for _ in range(rng.randint(1, 4)):
+                ops.append(("q", rng.choice([("cnt",), ("all",), ("btw", stream[len(stream) // 2], stream[-1] + 1, True), ("idx", -1),
+                                             ("aft", stream[-2], False), rrlib.random_query(rng, stream)])))
+                ops.append(rng.choice([("resume", (0, rng.choice([1, 2, 100]))), ("open", rng.randint(0, 3))]))
+            ops.append(("resume", (0, 100)))
+    elif shape == "partial":
+        m = rand_member(rng)
+        while len(m[1]) < 15:
+            m = rand_member(rng)
+        ops.append(("rr", m))
+        L = m[1]
+        n = len(L)
+        ops.append(("q", rng.choice([("take", rng.choice([1, 9, 10, 11])), ("idx", rng.choice([0, 3, 10])), ("aft", L[rng.choice([0, 5, 11])], False)])))
+        kinds = [("idx", -1), ("idx", -n), ("idx", -n - 1), ("sl", -3, None, None), ("sl", None, None, -1), ("sl", -5, -1, 2), ("sl", None, -2, None),
+                 ("cnt",), ("in", L[-1]), ("bef", L[-1] + 1, False), ("btw", L[2], L[-1], True), ("xaf", L[1], None, False), ("take", n + 1)]
+        for q in rng.sample(kinds, rng.randint(2, 5)):
+            ops.append(("q", q))
+    else:
+        p = rrlib.maxyear_rule_params(rng)
+        m = (tagged(R.rrule(cache=rng.random() < 0.5, **p), p), ints(list(R.rrule(**p))))
+        ops += [("rr", m), ("q", ("cnt",)), ("q", rng.choice([("all",), ("idx", -1), ("take", 3)])), ("q", ("cnt",))]
+        if rng.random() < 0.5:
+            ops += [("rd", m[1][-1] + 5), ("q", ("cnt",)), ("q", ("idx", -1))]
     return ops
 
 
@@ -204,9 +329,14 @@ def correspondence(ctx):
     ctx.count("corr_merge_cases", len(reqs))
     # histories
     reqs, exp, hs = [], [], []
-    for _ in range(ctx.budget(1200, 12000)):
+    for _ in range(ctx.budget(3000, 12000)):
         mode = rng.choice(["plain", "live", "live", "stale-rr"])
-        ops = gen_history(rng, mode)
+        if rng.random() < 0.2:
+            mode = rng.choice(["plain", "live"])
+            ops = shaped_history(rng, mode)
+            ctx.count("corr_shaped_histories")
+        else:
+            ops = gen_history(rng, mode)
         cache = rng.random() < 0.6
         obs, want, st = run_impl(cache, ops)
         ctx.count("corr_mode_" + mode)
@@ -256,14 +386,12 @@ def judge_history(ctx, pending, cache, ops, obs, want, after_stale, origin):
     """one history against the Python-side reference; failures inside a stale window wait for the model's verdict"""
     for j, (o, w) in enumerate(zip(obs, want)):
         if w is not None and o != w:
+            table, uses = member_table(ops)
             case = {"cache": cache, "history": describe(ops), "failing_op": j, "after_stale_resume": bool(after_stale[j]),
-                    "model_reproduces": False, "origin": origin}
+                    "model_reproduces": False, "origin": origin, "members": table, "member_uses": uses}
             what = ("observation %d (%s) of history %s (cache=%s): got %s, set algebra on the members gives %s"
                     % (j, op_wire(ops[j]), describe(ops)[:300], cache, o[:200], w[:200]))
-            if after_stale[j]:
-                pending.append((what, case, o, w, "rset.run %d %s" % (int(cache), ";".join(op_wire(x) for x in ops)), j))
-            else:
-                ctx.violation(what, case, {"impl": o, "want": w})
+            ctx.violation(what, case, {"impl": o, "want": w})
             return False
     return True
 
@@ -271,7 +399,7 @@ def judge_history(ctx, pending, cache, ops, obs, want, after_stale, origin):
 def oracle(ctx):
     """Python set algebra on list(member) against every observation made on the real set object"""
     rng = ctx.subrng("oracle")
-    n = ctx.budget(2000, 24000)
+    n = ctx.budget(6000, 24000)
     pending = []          # failures inside a stale window: classified after asking the model
     nsamples = 0
     # first: every input the correspondence ran, against the Python-side reference (not the model): an input on which the
@@ -289,11 +417,16 @@ def oracle(ctx):
         judge_history(ctx, pending, cache, ops, obs, want, after_stale, "correspondence")
     for i in range(n):
         mode = ["plain", "live", "live", "stale-rr", "stale"][i % 5]
-        ops = gen_history(rng, mode)
+        if i % 6 == 5:
+            mode = "live" if i % 12 == 5 else "plain"
+            ops = shaped_history(rng, mode)
+            ctx.count("shaped_histories")
+        else:
+            ops = gen_history(rng, mode)
         cache = rng.random() < 0.6
         # after a stale resume the model is faithful only when the later mutators are rrule/exrule (stale-rr): only then
         # are the observations in the stale window judged (and they are KNOWN only if the model reproduces them)
-        obs, want, after_stale = run_impl(cache, ops, judge_after_stale=(mode != "stale"))
+        obs, want, after_stale = run_impl(cache, ops)
         key = (cache, describe(ops))
         nontriv = nontrivial_history(ops, obs)
         ctx.case(key, nontrivial=nontriv)
@@ -312,46 +445,66 @@ def oracle(ctx):
         if nontriv and nsamples < 3:
             nsamples += 1
             ctx.sample({"cache": cache, "history": describe(ops)[:400], "observations": [o[:80] for o in obs]})
-    # the documented witness of D-C10-stale, replayed on the implementation on every run
+    # the former witness of D-C10-stale (repaired in /repo), replayed on the implementation on every run: regression stream
     wit = [("rr", (rrlib.daily(13, False), [86400 * k for k in range(13)])), ("open", 1), ("rd", 20 * 86400), ("resume", (0, 100)), ("q", ("all",)), ("q", ("cnt",))]
-    obs, want, after_stale = run_impl(True, wit)
-    ctx.case(("witness-stale",), nontrivial=True)
-    for j, (o, w) in enumerate(zip(obs, want)):
-        if w is not None and o != w:
-            pending.append(("witness D-C10-stale: observation %d (%s): got %s, set algebra gives %s" % (j, op_wire(wit[j]), o[:120], w[:120]),
-                            {"cache": True, "history": describe(wit), "failing_op": j, "after_stale_resume": bool(after_stale[j]), "model_reproduces": False},
-                            o, w, "rset.run 1 %s" % ";".join(op_wire(x) for x in wit), j))
-            break
-    # KNOWN only if the Lean model of the code (rset.run) reproduces exactly the observation the implementation made
-    if pending:
+    for cache in (True, False):
+        wit[0] = ("rr", (rrlib.daily(13, False), [86400 * k for k in range(13)]))
+        obs, want, after_stale = run_impl(cache, wit)
+        ctx.case(("witness-stale", cache), nontrivial=True)
+        judge_history(ctx, pending, cache, wit, obs, want, after_stale, "witness D-C10-stale")
+    # the stale iterator of a CACHED set goes on with the sequence it was created for
+    for n, relist in ((3, False), (13, False), (25, False), (13, True), (25, True)):
+        from dateutil import rrule as R
+        s = R.rruleset(cache=True)
+        s.rrule(rrlib.daily(n, False))
+        it = iter(s); first = ints([next(it)])
+        if n == 3:
+            list(s)                     # the old generator is already exhausted when the member is added
+        s.rdate(rrlib.to_dt(40 * 86400))
+        if relist:
+            list(s)                     # the NEW generation is complete before the old iterator goes on
         try:
-            got = ctx.driver([p[4] for p in pending])
-        except Exception:
-            got = ["-"] * len(pending)
-        for (what, case, o, w, req, j), g in zip(pending, got):
-            mobs = g[3:].split(";") if g.startswith("ok ") else []
-            case["model_reproduces"] = bool(j < len(mobs) and mobs[j] == o)
-            ctx.count("stale_window_failures_model_%s" % ("agrees" if case["model_reproduces"] else "differs"))
-            ctx.violation(what, case, {"impl": o, "want": w, "model": mobs[j] if j < len(mobs) else None})
+            rest = ints(list(it))
+        except Exception as ex:
+            rest = "err " + type(ex).__name__
+        ctx.case(("stale-own", n, relist), nontrivial=True)
+        if rest != [86400 * k for k in range(1, n)] or ints(list(s)) != [86400 * k for k in range(n)] + [40 * 86400] or s.count() != n + 1:
+            ctx.violation("an iterator of a cached set of %d daily instants that has taken one, then rdate(+40d): the iterator continues with %s, list(set) has %d instants, count() = %r"
+                          % (n, rest, len(list(s)), s.count()),
+                          {"cache": True, "history": "rr%s;o1;rd%d;%su0:100;qall;qcnt" % (ilist([86400 * k for k in range(n)]), 40 * 86400, "qall;" if relist else ""), "failing_op": 3,
+                           "after_stale_resume": True, "model_reproduces": False, "origin": "stale-own"}, None)
 
 
-KNOWN = {
-    # D-C10-stale, positional and mechanism-specific: the failing observation lies after a stale resume that really advanced
-    # an iterator, with no mutator in between, AND the Lean model of the code predicts exactly the observation made
-    "D-C10-stale": lambda v: bool(v["case"].get("after_stale_resume")) and bool(v["case"].get("model_reproduces")),
-}
+KNOWN = {}
 
 
-def parse_history(text):
-    """rebuild a history from its description: members are rebuilt as explicit sets of rdates (same streams)"""
+def parse_history(text, members=None, uses=None):
+    """rebuild a history from its description: members are rebuilt from their construction records (the same rule object for the
+    same record index: shared members stay shared); without a record, as explicit sets of rdates (same streams)"""
+    import datetime
     ops = []
     from dateutil import rrule as R
+    built = {}
+    nuse = 0
     for tok in text.split(";"):
         if tok[:2] in ("rr", "xr"):
             stream = [int(x) for x in tok[3:-1].split(",") if x]
-            m = R.rruleset()
-            for x in stream:
-                m.rdate(rrlib.to_dt(x))
+            idx = uses[nuse] if uses and nuse < len(uses) else None
+            nuse += 1
+            rec = members[idx] if members and idx is not None and idx < len(members) else None
+            if idx is not None and idx in built:
+                m = built[idx]
+            elif rec:
+                kw = {}
+                for k, v in rec["params"].items():
+                    kw[k] = datetime.datetime.fromisoformat(v) if k in ("dtstart", "until") else (tuple(v) if isinstance(v, list) else v)
+                m = R.rrule(cache=rec["cache"], **kw)
+            else:
+                m = R.rruleset()
+                for x in stream:
+                    m.rdate(rrlib.to_dt(x))
+            if idx is not None:
+                built[idx] = m
             ops.append((tok[:2], (m, stream)))
         elif tok[:2] in ("rd", "xd"):
             ops.append((tok[:2], int(tok[2:])))
@@ -361,28 +514,14 @@ def parse_history(text):
             a, b = tok[1:].split(":")
             ops.append(("resume", (int(a), int(b))))
         elif tok.startswith("q"):
-            f = tok[1:].split(":")
-            conv = lambda x: None if x == "-" else int(x)
-            k = f[0]
-            if k in ("all", "cnt"):
-                q = (k,)
-            elif k in ("bef", "aft"):
-                q = (k, int(f[1]), f[2] == "1")
-            elif k == "xaf":
-                q = (k, int(f[1]), conv(f[2]), f[3] == "1")
-            elif k == "btw":
-                q = (k, int(f[1]), int(f[2]), f[3] == "1")
-            elif k == "sl":
-                q = (k, conv(f[1]), conv(f[2]), conv(f[3]))
-            else:
-                q = (k, int(f[1]))
+            q = rrlib.q_parse(tok[1:])
             ops.append(("q", q))
     return ops
 
 
 def replay(ctx, payload):
     c = payload["violation"]["case"]
-    ops = parse_history(c["history"])
+    ops = parse_history(c["history"], c.get("members"), c.get("member_uses"))
     obs, want, _ = run_impl(c["cache"], ops)
     for o, w, op in zip(obs, want, ops):
         if op[0] in ("q", "open", "resume"):
